@@ -1,6 +1,6 @@
-(* C11 - kernel-evaluated sweep, shard g_a (see RtNetProofs.v for how the shards are combined) *)
+(* C11 - kernel-evaluated sweep, shard g_d4 (see RtNetProofs.v for how the shards are combined) *)
 From Coq Require Import List Arith Bool.
 From Icv Require Import Route.RtModel Route.RtNet Route.RtFamilies.
 Import ListNotations.
-Lemma rt_sweep_g_a : rt_sweep_g (rt_fam_g 0 9) = true.
+Lemma rt_sweep_g_d4 : rt_sweep_g (skipn 24 (rt_fam_g 12 12)) = true.
 Proof. vm_compute. reflexivity. Qed.
